@@ -101,6 +101,9 @@ static Family life_udp(const std::string &tier)
   f.req_menu = { 0, 1, 2, 4, 5, 6, 7, 8, 9, 10, 11, 3 };
   f.replies  = { RK_DATA, RK_SERVFAIL, RK_TC, RK_NXDOMAIN, RK_MALFORMED };
   f.faults   = { FS_SOCKET, FS_CONNECT, FS_SEND_REFUSED, FS_SEND_WOULDBLOCK, FS_RECV_RESET, FS_GETSOCKNAME };
+  // a read error may also hit the SECOND recvfrom() of one drain loop, i.e. right behind a datagram that was read
+  f.fault_skips      = { 0, 1 };
+  f.fault_skip_sites = { FS_RECV_RESET };
   f.setservers = { 1, 2 };
   f.evmask   = EVBIT(EV_REQ) | EVBIT(EV_REPLY) | EVBIT(EV_IO) | EVBIT(EV_TIMER) | EVBIT(EV_CANCEL) | EVBIT(EV_DESTROY) | EVBIT(EV_SETSERVERS) |
              EVBIT(EV_FAULT);
@@ -132,7 +135,7 @@ static Family life_reentrant(const std::string &tier)
   }
   f.req_menu = { 12, 13, 14, 15, 16, 17, 0 };
   f.replies  = { RK_DATA, RK_SERVFAIL, RK_NXDOMAIN };
-  f.faults   = { FS_SEND_REFUSED, FS_SOCKET };
+  f.faults   = { FS_SEND_REFUSED, FS_SOCKET, FS_RECV_RESET };
   f.setservers = { 1 };
   return f;
 }
